@@ -19,4 +19,3 @@ MANIFEST = {
             "the correspondence samples schedules inside synctest bubbles.",
     "technique": "Lean 4 proof over a history monitor with history correspondence against kgo x kfake in synctest bubbles",
 }
-PENDING = True
